@@ -460,6 +460,7 @@ class ESME:
                                 smpp_message.encoding = encoding
                         else:
                             msg: bytes = smpp_message.smpp_encode(smpp_message.short_message)
+                            encoding: str = smpp_message.encoding or ''
                             msg_parts = split_sms(smpp_message.short_message, encoding)
                             parts_count = len(msg_parts)
                             if parts_count == 1:
